@@ -1,6 +1,7 @@
 """C03 — masked PSF blurring equals true 2-D convolution restricted to the mask."""
 from __future__ import annotations
 
+import copy
 from fractions import Fraction
 
 import numpy as np
@@ -51,13 +52,311 @@ def _farr(vals, shape=None):
     return a.reshape(shape) if shape is not None else a
 
 
+def _holds(obj, vals) -> bool:
+    """can the array under `obj` hold the real numbers `vals` exactly (in-place edits must not round)?"""
+    dt = np.asarray(obj).dtype
+    if dt == np.float64:
+        return True
+    v = np.asarray(vals, dtype=float)
+    try:
+        return bool(np.all(v.astype(dt).astype(float) == v))
+    except Exception:
+        return False
+
+
+def _edit_to(obj, target_native, mask_bool=None):
+    """bring a live autoarray structure to the content `target_native` IN PLACE, entry by entry, through the
+    library's own `__setitem__` (slim index for slim-stored data, (y, x) for native-stored data)"""
+    cur = np.asarray(obj)
+    tgt = np.asarray(target_native, dtype=float)
+    if cur.ndim == 1:
+        t = tgt.ravel() if mask_bool is None else tgt[~mask_bool]
+        for k in np.flatnonzero(cur != t):
+            obj[int(k)] = t[int(k)]
+    else:
+        diff = cur != tgt
+        if mask_bool is not None:
+            diff &= ~mask_bool
+        for y, x in np.argwhere(diff):
+            obj[int(y), int(x)] = tgt[int(y), int(x)]
+
+
+def _derived(old, how):
+    """an object derived from a live one the way user code derives objects"""
+    if how == "copy":
+        return old.copy()
+    if how == "deepcopy":
+        return copy.deepcopy(old)
+    if how == "with_new_array":
+        return old.with_new_array(np.array(np.asarray(old)))
+    if how == "arith":
+        return old + 0.0
+    if how == "slice":
+        return old[:]
+    return old
+
+
+def _decoy_reads(obj, depth=1, skip=("w_tilde",)):
+    """read every public property / cached property of `obj` (and, one level down, of the autoarray helper
+    objects they return): reads that must not change anything observed afterwards"""
+    n = 0
+    for name in dir(type(obj)):
+        if name.startswith("_") or name in skip:
+            continue
+        attr = getattr(type(obj), name, None)
+        if attr is None or callable(attr) or not hasattr(attr, "__get__"):
+            continue
+        try:
+            v = getattr(obj, name)
+        except Exception:
+            continue
+        n += 1
+        if depth and type(v).__module__.startswith("autoarray") and not isinstance(v, type(obj)):
+            n += _decoy_reads(v, depth - 1, skip)
+    return n
+
+
+class _Poison:
+    """a matrix / image entry that is "non-zero" and raises as soon as it is multiplied: an operation that fails
+    part-way through its loop"""
+
+    def __ne__(self, other):
+        return True
+
+    def __eq__(self, other):
+        return False
+
+    __hash__ = None
+
+    def __mul__(self, other):
+        raise RuntimeError("poisoned entry")
+
+    __rmul__ = __mul__
+
+
+class _Env:
+    """Live objects of one history (an ordinary case uses a throw-away, empty one: everything is built new).
+    Each getter hands out the object the current step must use: the LIVE one — edited in place through the
+    library's own `__setitem__` (numpy for caller-owned matrices) until it holds the step's content —, an object
+    derived from it (copy / deepcopy / with_new_array / arithmetic / slice, then edited), or a new one.  Objects
+    computed from others (convolver, images on a mask, simulator, datasets) are reused only when the content
+    they were built from equals the step's content, so the expectation is always "a fresh object in this state"."""
+
+    def __init__(self, aa):
+        self.aa = aa
+        self.o = {}
+        self.sig = {}
+        self.st = {}
+
+    def begin(self, st):
+        self.st = st
+
+    def how(self, role):
+        if role in self.st.get("new", ()):
+            return "new"
+        return self.st.get("derive", {}).get(role, "reuse")
+
+    def swap(self):
+        return bool(self.st.get("swap"))
+
+    # ---- inputs
+    def mask(self, m):
+        how, old = self.how("mask"), self.o.get("mask")
+        if old is None or how == "new" or tuple(old.shape_native) != tuple(m.shape):
+            obj = self.aa.Mask2D(mask=m, pixel_scales=1.0)
+        else:
+            obj = _derived(old, how if how in ("copy", "deepcopy", "with_new_array") else "reuse")
+            cur = np.asarray(obj, dtype=bool)
+            for y, x in np.argwhere(cur != m):
+                obj[int(y), int(x)] = bool(m[y, x])
+        self.o["mask"] = obj
+        return obj
+
+    def kernel(self, case):
+        Kj = case["kernel"]
+        shape = (Kj["h"], Kj["w"])
+        vals = [float(Fraction(v)) for v in Kj["vals"]]
+        how, old = self.how("kernel"), self.o.get("kernel")
+        if old is None or how == "new" or tuple(old.shape_native) != shape or not _holds(old, vals):
+            obj = C03._kernel_obj(self.aa, case)
+        else:
+            if "scale" in self.st and how == "arith":
+                obj = old * float(Fraction(self.st["scale"]))
+            else:
+                obj = _derived(old, how)
+            _edit_to(obj, np.array(vals).reshape(shape))
+        self.o["kernel"] = obj
+        return obj
+
+    def image(self, role, vals, shape, mask, form, store_native):
+        mb = np.array(np.asarray(mask, dtype=bool))
+        sig = (_bits(mb), form, bool(store_native))
+        fv = [float(Fraction(v)) for v in vals]
+        how, old = self.how(role), self.o.get(role)
+        ok = old is not None and how != "new" and self.sig.get(role) == sig and _holds(old, fv) \
+            and np.array_equal(np.asarray(old.mask, dtype=bool), mb) and (role != "image" or old.mask is mask)
+        if not ok:
+            obj = C03._image_obj(self.aa, vals, shape, mask, form, store_native)
+        else:
+            obj = _derived(old, how)
+            _edit_to(obj, np.array(fv).reshape(shape), mb)
+        self.o[role], self.sig[role] = obj, sig
+        return obj
+
+    def array_no_mask(self, vals, shape, form, role="array"):
+        fv = [float(Fraction(v)) for v in vals]
+        how, old = self.how(role), self.o.get(role)
+        ok = old is not None and how != "new" and self.sig.get(role) == (shape, form) and _holds(old, fv)
+        if not ok:
+            obj = self.aa.Array2D.no_mask(values=_typed(vals, shape, form), pixel_scales=1.0)
+        else:
+            obj = _derived(old, how)
+            _edit_to(obj, np.array(fv).reshape(shape))
+        self.o[role], self.sig[role] = obj, (shape, form)
+        return obj
+
+    def matrix(self, case):
+        rows, ncols = len(case["matrix"]), case["ncols"]
+        M = np.array([[float(Fraction(v)) for v in row] for row in case["matrix"]], dtype=float)
+        M = M.reshape(rows, ncols)
+        mform = case.get("matrix_form", "float")
+        how, old = self.how("matrix"), self.o.get("matrix")
+        if old is not None and how != "new" and old.shape == M.shape and self.sig.get("matrix") == mform \
+                and _holds(old, M):
+            obj = old.copy(order="K") if how == "copy" else old     # caller-owned: edited through numpy
+            for i, j in np.argwhere(np.asarray(obj, dtype=float) != M):
+                obj[int(i), int(j)] = M[int(i), int(j)]
+        else:
+            obj = M
+            if mform == "int64" and _integral([v for row in case["matrix"] for v in row]):
+                obj = M.astype(np.int64)
+            elif mform == "float32":
+                obj = M.astype(np.float32)
+            elif mform == "fortran":
+                obj = np.asfortranarray(M)
+        self.o["matrix"], self.sig["matrix"] = obj, mform
+        return obj
+
+    # ---- objects computed from the inputs
+    def convolver(self, mask, kernel, case):
+        sig = (case["mask"]["h"], case["mask"]["w"], case["mask"]["bits"], tuple(case["kernel"]["vals"]),
+               case["kernel"]["h"], case["kernel"]["w"])
+        old = self.o.get("cv")
+        if old is not None and self.how("cv") != "new" and self.sig.get("cv") == sig and old.mask is mask \
+                and old.kernel is kernel:
+            return old
+        self.o.pop("cv", None)
+        cv = self.aa.Convolver(mask=mask, kernel=kernel)
+        self.o["cv"], self.sig["cv"] = cv, sig
+        return cv
+
+    def simulator(self, case, kernel, bg):
+        sig = (tuple(case["kernel"]["vals"]), case["kernel"]["h"], case["kernel"]["w"], bg,
+               case.get("exposure", "1"), bool(case.get("subtract_background", True)),
+               bool(case.get("normalize_psf", True)))
+        old = self.o.get("sim")
+        if old is not None and self.how("sim") != "new" and self.sig.get("sim") == sig \
+                and self.o.get("sim_kernel") is kernel:
+            return old
+        sim = self.aa.SimulatorImaging(exposure_time=float(Fraction(case.get("exposure", "1"))),
+                                       background_sky_level=bg, psf=kernel,
+                                       subtract_background_sky=bool(case.get("subtract_background", True)),
+                                       normalize_psf=bool(case.get("normalize_psf", True)),
+                                       add_poisson_noise_to_data=False,
+                                       include_poisson_noise_in_noise_map=False, noise_seed=1)
+        self.o["sim"], self.sig["sim"], self.o["sim_kernel"] = sim, sig, kernel
+        self.o.pop("ds", None)
+        return sim
+
+    def dataset(self, sim, img):
+        sig = tuple(np.asarray(img.native.array).ravel().tolist())
+        old = self.o.get("ds")
+        if old is not None and self.how("ds") != "new" and self.sig.get("ds") == sig and self.o.get("ds_sim") is sim:
+            return old
+        ds = sim.via_image_from(image=img)
+        self.o["ds"], self.sig["ds"], self.o["ds_sim"] = ds, sig, sim
+        return ds
+
+    def masked(self, ds, mask):
+        # always a new masked dataset: `apply_mask` is the operation under observation
+        masked = ds.apply_mask(mask=mask)
+        self.o["masked"] = masked
+        return masked
+
+    # ---- things done between building the objects and observing
+    def before_observe(self, **objs):
+        st = self.st
+        fault = st.get("fault")
+        if fault:
+            self._fault(fault, objs)
+        if st.get("decoy"):
+            for name, obj in objs.items():
+                if obj is None or isinstance(obj, np.ndarray):
+                    continue
+                _decoy_reads(obj, depth=1 if name in ("mask",) else 0)
+            mask, kernel = objs.get("mask"), objs.get("kernel")
+            if mask is not None:    # sibling derivations on the same mask for other kernel shapes
+                for shp in ((1, 1), (1, 3), (3, 1), (3, 3)):
+                    try:
+                        mask.derive_mask.blurring_from(kernel_shape_native=shp)
+                    except Exception:
+                        pass
+
+    def _fault(self, fault, objs):
+        """make an operation on the live objects raise part-way, swallow the exception, carry on with them"""
+        aa = self.aa
+        cv, mask, kernel = objs.get("cv"), objs.get("mask"), objs.get("kernel")
+        try:
+            if fault == "matrix_rows" and cv is not None:
+                n = cv.pixels_in_mask
+                cv.convolve_mapping_matrix(mapping_matrix=np.full((n + 2, 2), 3.0))
+            elif fault == "image_len" and cv is not None:
+                n = cv.pixels_in_mask
+                cv.convolve_image_no_blurring_interpolation(image=np.full(n + 3, 5.0))
+            elif fault == "blurring_len" and cv is not None and objs.get("image") is not None:
+                bad = aa.Array2D.no_mask(values=np.full(tuple(mask.shape_native), 7.0), pixel_scales=1.0)
+                cv.convolve_image(image=objs["image"], blurring_image=bad)
+            elif fault == "even_kernel" and mask is not None:
+                aa.Convolver(mask=mask, kernel=aa.Kernel2D.no_mask(values=np.ones((2, 2)), pixel_scales=1.0))
+            elif fault == "footprint" and mask is not None and kernel is not None:
+                was = bool(np.asarray(mask, dtype=bool)[0, 0])
+                mask[0, 0] = False
+                try:
+                    aa.Convolver(mask=mask, kernel=kernel)
+                finally:
+                    mask[0, 0] = was
+            elif fault == "even_same" and objs.get("array") is not None:
+                aa.Kernel2D.no_mask(values=np.ones((2, 2)), pixel_scales=1.0).convolved_array_from(array=objs["array"])
+            elif fault == "poisoned_matrix" and cv is not None:
+                # same shape as the matrix the step is about to blur; the entry half-way down raises when it is used
+                shape = objs["matrix"].shape if objs.get("matrix") is not None else (cv.pixels_in_mask, 2)
+                M = np.full(shape, 2.0, dtype=object)
+                if M.size:
+                    M[shape[0] // 2, 0] = _Poison()
+                cv.convolve_mapping_matrix(mapping_matrix=M)
+            elif fault == "poisoned_image" and cv is not None:
+                v = np.full(cv.pixels_in_mask, 3.0, dtype=object)
+                if v.size:
+                    v[v.size // 2] = _Poison()
+                cv.convolve_image_no_blurring_interpolation(image=v)
+            elif fault == "readonly_matrix" and cv is not None:
+                M = np.full((cv.pixels_in_mask, 1), 2.0)
+                M.flags.writeable = False
+                cv.convolve_mapping_matrix(mapping_matrix=M)
+        except Exception:
+            pass
+
+
 class C03(PropertyCheck):
     pid = "C03"
     title = "masked PSF convolution"
     nontrivial_rule = (
         "a case is non-trivial when the kernel has more than one non-zero entry or the mask has masked "
-        "pixels inside the kernel footprint of an unmasked one; distinct = distinct (kind, mask, kernel, values)"
+        "pixels inside the kernel footprint of an unmasked one; distinct = distinct (kind, mask, kernel, values); "
+        "a history counts when it has at least two steps and a non-trivial kernel in one of them"
     )
+    # loop ties (DESIGN §12): regenerated from the source on every run, tie theorems proved for all sizes
+    loop_tie_modules = ["LoopsConv"]
     modelled_functions = [
         "autoarray/operators/convolver.py:Convolver.__init__",
         "autoarray/operators/convolver.py:Convolver.frame_at_coordinates_jit",
@@ -310,16 +609,775 @@ class C03(PropertyCheck):
             A = self._values(rng, h * w, "int")
             yield {"tag": "footprint_outside", "kind": "convolve", "mask": mask_json(m), "kernel": K,
                    "image": qlist(A), "blur": qlist(A), "store_native": False}
+        # 4. histories on real reused objects (round 4): read -> in-place edit -> read, near-duplicate twins,
+        #    fault then reuse, one object shared by two worlds, decoy reads / sibling calls first
+        yield from self._histories(rng, 260 if quick else 2600, 8 if quick else 10)
 
-    # ------------------------------------------------------------------ implementation
-    def _convolver(self, aa, case):
+    # ------------------------------------------------------------------ histories (round 4)
+    TWIN = Fraction(1, 2 ** 18)      # relative perturbation ~3.8e-6: inside np.allclose's default rtol, >> 1e-9
+    HIST_FAULTS = ["matrix_rows", "image_len", "blurring_len", "even_kernel", "footprint", "readonly_matrix",
+                   "poisoned_matrix", "poisoned_matrix", "poisoned_image"]
+
+    @classmethod
+    def _hist_kernel(cls, rng, kh, kw, style):
+        if style == "tiny40":   # entries ~1e-12..1e-11: any two such kernels are `allclose` (atol 1e-8)
+            vals = [Fraction(rng.randint(-12, 12), 2 ** 40) for _ in range(kh * kw)]
+            if all(v == 0 for v in vals):
+                vals[(kh // 2) * kw + kw // 2] = Fraction(3, 2 ** 40)
+            return {"h": kh, "w": kw, "vals": qlist(vals)}
+        return cls._kernel(rng, kh, kw, style)
+
+    @staticmethod
+    def _perturbed(rng, vals, how):
+        """near-duplicate of a list of exact values: every entry / one entry scaled by (1 ± 2^-18 … 2^-17)"""
+        vals = [Fraction(v) for v in vals]
+        eps = C03.TWIN * rng.choice([1, -1, 2, -2])
+        if how == "all":
+            return [v * (1 + eps) for v in vals], 1 + eps
+        nz = [i for i, v in enumerate(vals) if v != 0] or [0]
+        picks = set(rng.sample(nz, min(len(nz), rng.randint(1, 3))))
+        return [v * (1 + eps) if i in picks else v for i, v in enumerate(vals)], None
+
+    def _hist_cv(self, rng, hi):
+        """histories around one Convolver world: (mask, kernel, image, blurring image, mapping matrix)"""
+        kh, kw = rng.choice((1, 3, 5)), rng.choice((1, 3, 5))
+        roomy = rng.random() < 0.5           # margins that admit a second kernel shape on the same mask
+        my, mx = (max(kh // 2, 1), max(kw // 2, 1)) if roomy else (kh // 2, kw // 2)
+        h = rng.randint(2 * my + 2, max(hi, 2 * my + 3))
+        w = rng.randint(2 * mx + 2, max(hi, 2 * mx + 3))
+        m, mk = self._mask_with_margins(rng, h, w, my, mx)
+        kstyle = rng.choice(["signed", "dyadic", "ramp", "asym_pos", "tiny40", "tiny40"])
+        vstyles = ["int", "sparse", "dyadic", "neg", "pos"]
+        vtiny = rng.random() < 0.2     # values ~1e-11: any two such images / matrices are `allclose` (atol 1e-8)
+
+        vunit = Fraction(1, 2 ** 40) if vtiny else Fraction(1, 4)    # in-place edits stay on the world's value grid
+
+        def tiny(n):
+            return [Fraction(rng.randint(-12, 12), 2 ** 40) for _ in range(n)]
+        W = {"m": [list(r) for r in m], "K": self._hist_kernel(rng, kh, kw, kstyle), "h": h, "w": w,
+             "A": tiny(h * w) if vtiny else self._values(rng, h * w, rng.choice(vstyles)),
+             "B": tiny(h * w) if vtiny else self._values(rng, h * w, rng.choice(vstyles))}
+        W["ncols"] = rng.randint(1, 3)
+
+        def n_un(Wd):
+            return sum(1 for r in Wd["m"] for b in r if not b)
+        W["M"] = [tiny(W["ncols"]) if vtiny else self._values(rng, W["ncols"], rng.choice(["int", "sparse", "dyadic"]))
+                  for _ in range(n_un(W))]
+        def fresh_M(Wd):
+            return [tiny(Wd["ncols"]) if vtiny else self._values(rng, Wd["ncols"], "int") for _ in range(n_un(Wd))]
+        fixed = {"store_native": rng.random() < 0.5,
+                 "image_form": rng.choice(["native_float", "slim_float", "native_pyfloat", "structure"]),
+                 "kernel_form": rng.choice(KERNEL_FORMS), "matrix_form": rng.choice(["float", "float", "fortran"]),
+                 "interpolation_wrapper": rng.random() < 0.2}
+        W0 = dict(W)
+
+        def sub(Wd, kind):
+            if kind == "matrix":
+                return {"kind": "matrix", "mask": mask_json(Wd["m"]), "kernel": Wd["K"], "matrix": qmat(Wd["M"]),
+                        "ncols": Wd["ncols"], "matrix_form": fixed["matrix_form"], "kernel_form": fixed["kernel_form"]}
+            return {"kind": "convolve", "mask": mask_json(Wd["m"]), "kernel": Wd["K"], "image": qlist(Wd["A"]),
+                    "blur": qlist(Wd["B"]), "store_native": fixed["store_native"], "image_form": fixed["image_form"],
+                    "kernel_form": fixed["kernel_form"], "interpolation_wrapper": fixed["interpolation_wrapper"]}
+
+        def inner_flip(Wd):
+            """flip one pixel whose kernel footprint (for the margins of this history) stays inside the frame"""
+            mm = [list(r) for r in Wd["m"]]
+            cells = [(y, x) for y in range(my, h - my) for x in range(mx, w - mx)]
+            y, x = rng.choice(cells)
+            mm[y][x] = not mm[y][x]
+            return mm
+
+        steps = [{"case": sub(W, rng.choice(["convolve", "convolve", "matrix"])), "move": "base"}]
+        moves = ["edit_image", "edit_blur", "edit_matrix", "edit_mask", "edit_kernel", "twin_kernel", "twin_kernel",
+                 "twin_kernel_obj", "twin_image", "twin_matrix", "new_kernel_same_shape", "new_mask_same_shape",
+                 "other_kernel_shape", "other_mask", "again", "back", "derived"]
+        for _ in range(rng.randint(1, 3)):
+            mv = rng.choice(moves)
+            if mv.startswith("twin"):   # one near-duplicate per history: every float operation stays exact
+                moves = [x for x in moves if not x.startswith("twin")]
+            W = dict(W)
+            st = {"move": mv}
+            kind = rng.choice(["convolve", "convolve", "matrix"])
+            if mv in ("edit_image", "edit_blur"):
+                key = "A" if mv == "edit_image" else "B"
+                vals = list(W[key])
+                for k in rng.sample(range(h * w), min(h * w, rng.randint(1, 4))):
+                    vals[k] = rng.randint(-40, 40) * vunit
+                un = [y * w + x for y in range(h) for x in range(w) if not W["m"][y][x]]
+                if un and key == "A":
+                    vals[rng.choice(un)] += 12 * vunit
+                W[key] = vals
+                kind = "convolve"
+            elif mv == "edit_matrix":
+                M = [list(r) for r in W["M"]]
+                if M:
+                    for _k in range(rng.randint(1, 3)):
+                        M[rng.randrange(len(M))][rng.randrange(W["ncols"])] = rng.randint(-40, 40) * vunit
+                W["M"] = M
+                kind = "matrix"
+            elif mv == "edit_mask":
+                W["m"] = inner_flip(W)
+                W["M"] = fresh_M(W)
+            elif mv == "edit_kernel":
+                vals = [Fraction(v) for v in W["K"]["vals"]]
+                k = rng.randrange(len(vals))
+                unit = Fraction(1, 2 ** 40) if kstyle == "tiny40" else Fraction(1, 4)
+                vals[k] += unit * rng.choice([1, -1, 2, 5])
+                W["K"] = {**W["K"], "vals": qlist(vals)}
+            elif mv in ("twin_kernel", "twin_kernel_obj"):
+                if kstyle == "tiny40":      # unrelated values, equal within np.allclose's absolute tolerance
+                    W["K"] = self._hist_kernel(rng, W["K"]["h"], W["K"]["w"], "tiny40")
+                    st["new"] = ["kernel"]
+                else:
+                    vals, factor = self._perturbed(rng, W["K"]["vals"], rng.choice(["all", "some"]))
+                    W["K"] = {**W["K"], "vals": qlist(vals)}
+                    if mv == "twin_kernel_obj" and factor is not None:
+                        st["derive"] = {"kernel": "arith"}     # kernel * (1 + eps): a derived Kernel2D
+                        st["scale"] = q(factor)
+                    else:
+                        st["new"] = ["kernel"]
+            elif mv == "twin_image":
+                if vtiny:
+                    W["A"], W["B"] = tiny(h * w), tiny(h * w)
+                else:
+                    W["A"], _f = self._perturbed(rng, W["A"], "all")
+                    W["B"], _f = self._perturbed(rng, W["B"], rng.choice(["all", "some"]))
+                st["new"] = ["image", "blur"]
+                kind = "convolve"
+            elif mv == "twin_matrix":
+                if vtiny:
+                    flat = tiny(len(W["M"]) * W["ncols"])
+                else:
+                    flat, _f = self._perturbed(rng, [v for r in W["M"] for v in r], rng.choice(["all", "some"]))
+                nc = W["ncols"]
+                W["M"] = [flat[i * nc:(i + 1) * nc] for i in range(len(W["M"]))]
+                st["new"] = ["matrix"]
+                kind = "matrix"
+            elif mv == "new_kernel_same_shape":
+                W["K"] = self._hist_kernel(rng, W["K"]["h"], W["K"]["w"], kstyle)
+                st["new"] = ["kernel"]
+            elif mv == "new_mask_same_shape":
+                m2, _mk = self._mask_with_margins(rng, h, w, my, mx)
+                W["m"] = [list(r) for r in m2]
+                W["M"] = fresh_M(W)
+                st["new"] = ["mask"]
+            elif mv == "other_kernel_shape":
+                shapes = [(a, b) for a in (1, 3, 5) for b in (1, 3, 5)
+                          if a // 2 <= my and b // 2 <= mx and (a, b) != (W["K"]["h"], W["K"]["w"])]
+                if shapes:
+                    a, b = rng.choice(shapes)
+                    W["K"] = self._hist_kernel(rng, a, b, kstyle)
+            elif mv == "other_mask":
+                h2 = rng.randint(2 * my + 2, max(hi, 2 * my + 3))
+                w2 = rng.randint(2 * mx + 2, max(hi, 2 * mx + 3))
+                if (h2, w2) != (h, w):
+                    # a different frame for one step (the kernel object is shared), then the history ends
+                    m2, _mk = self._mask_with_margins(rng, h2, w2, my, mx)
+                    W2 = {**W, "m": [list(r) for r in m2], "h": h2, "w": w2,
+                          "A": self._values(rng, h2 * w2, "int"), "B": self._values(rng, h2 * w2, "dyadic")}
+                    W2["M"] = [self._values(rng, W["ncols"], "int") for _ in range(n_un(W2))]
+                    st["case"] = sub(W2, kind)
+                    steps.append(st)
+                    steps.append({"case": sub(W, kind), "move": "again"})
+                    continue
+            elif mv == "back":
+                W = dict(W0)
+            elif mv == "derived":
+                role = rng.choice(["mask", "kernel", "image"])
+                how = {"mask": ["copy", "deepcopy", "with_new_array"], "kernel": ["copy", "deepcopy", "arith", "slice"],
+                       "image": ["copy", "arith", "slice", "deepcopy"]}[role]
+                st["derive"] = {role: rng.choice(how)}
+                if rng.random() < 0.5:      # and the derived object is edited as well
+                    if role == "mask":
+                        W["m"] = inner_flip(W)
+                        W["M"] = fresh_M(W)
+                    elif role == "image":
+                        vals = list(W["A"])
+                        vals[rng.randrange(h * w)] = rng.randint(-40, 40) * vunit
+                        W["A"] = vals
+                        kind = "convolve"
+            if rng.random() < 0.3:
+                st["decoy"] = True
+            if rng.random() < 0.25:
+                st["fault"] = rng.choice(self.HIST_FAULTS)
+            if rng.random() < 0.3:
+                st["swap"] = True
+            st["case"] = sub(W, kind)
+            steps.append(st)
+        return {"tag": "history_cv_" + steps[1]["move"], "kind": "history",
+                "family": "cv", "steps": steps}
+
+    def _hist_same(self, rng, hi):
+        """histories around Kernel2D.convolved_array_from / convolved_array_with_mask_from"""
+        kh, kw = rng.choice((1, 3, 5)), rng.choice((1, 3, 5))
+        h, w = self._frame_for(rng, kh, kw, 3, hi)
+        kstyle = rng.choice(["signed", "dyadic", "tiny40"])
+        vtiny = rng.random() < 0.2
+
+        vunit = Fraction(1, 2 ** 40) if vtiny else Fraction(1, 4)    # in-place edits stay on the world's value grid
+
+        def tiny(n):
+            return [Fraction(rng.randint(-12, 12), 2 ** 40) for _ in range(n)]
+        W = {"K": self._hist_kernel(rng, kh, kw, kstyle),
+             "A": tiny(h * w) if vtiny else self._values(rng, h * w, rng.choice(["int", "dyadic"]))}
+        W0 = dict(W)
+        fixed = {"image_form": "float", "kernel_form": rng.choice(KERNEL_FORMS)}
+
+        def sub(Wd):
+            return {"kind": "same", "h": h, "w": w, "kernel": Wd["K"], "image": qlist(Wd["A"]), **fixed}
+        steps = [{"case": sub(W), "move": "base"}]
+        moves = ["edit_array", "edit_kernel", "twin_array", "twin_kernel", "new_kernel_same_shape",
+                 "again", "back", "derived"]
+        for _ in range(rng.randint(1, 3)):
+            mv = rng.choice(moves)
+            if mv.startswith("twin"):
+                moves = [x for x in moves if not x.startswith("twin")]
+            W = dict(W)
+            st = {"move": mv}
+            if mv == "edit_array":
+                vals = list(W["A"])
+                for k in rng.sample(range(h * w), min(h * w, rng.randint(1, 3))):
+                    vals[k] = rng.randint(-40, 40) * vunit
+                W["A"] = vals
+            elif mv == "edit_kernel":
+                vals = [Fraction(v) for v in W["K"]["vals"]]
+                unit = Fraction(1, 2 ** 40) if kstyle == "tiny40" else Fraction(1, 4)
+                vals[rng.randrange(len(vals))] += unit * rng.choice([1, -1, 3])
+                W["K"] = {**W["K"], "vals": qlist(vals)}
+            elif mv == "twin_array":
+                if vtiny:
+                    W["A"] = tiny(h * w)
+                else:
+                    W["A"], _f = self._perturbed(rng, W["A"], rng.choice(["all", "some"]))
+                st["new"] = ["array"]
+            elif mv == "twin_kernel":
+                if kstyle == "tiny40":
+                    W["K"] = self._hist_kernel(rng, kh, kw, "tiny40")
+                else:
+                    vals, _f = self._perturbed(rng, W["K"]["vals"], rng.choice(["all", "some"]))
+                    W["K"] = {**W["K"], "vals": qlist(vals)}
+                st["new"] = ["kernel"]
+            elif mv == "new_kernel_same_shape":
+                W["K"] = self._hist_kernel(rng, kh, kw, kstyle)
+                st["new"] = ["kernel"]
+            elif mv == "back":
+                W = dict(W0)
+            elif mv == "derived":
+                role = rng.choice(["kernel", "array"])
+                st["derive"] = {role: rng.choice(["copy", "deepcopy", "arith", "slice"])}
+            if rng.random() < 0.3:
+                st["decoy"] = True
+            if rng.random() < 0.2:
+                st["fault"] = "even_same"
+            if rng.random() < 0.4:
+                st["swap"] = True
+            st["case"] = sub(W)
+            steps.append(st)
+        return {"tag": "history_same_" + steps[1]["move"], "kind": "history",
+                "family": "same", "steps": steps}
+
+    def _hist_sim(self, rng, hi):
+        """histories around SimulatorImaging -> Imaging.apply_mask -> .convolver sharing simulator / dataset / mask /
+        PSF objects between two worlds"""
+        kh, kw = rng.choice((1, 3, 5)), rng.choice((1, 3, 5))
+        h, w = self._frame_for(rng, kh, kw, 5, hi)
+        my, mx = kh // 2, kw // 2
+        m, mk = self._mask_with_margins(rng, h, w, my, mx)
+        normalize = rng.random() < 0.5
+        c = (kh // 2) * kw + kw // 2
+
+        def kernel():
+            K = self._kernel(rng, kh, kw, "signed")
+            vals = [Fraction(v) for v in K["vals"]]
+            if normalize:
+                vals[c] += rng.choice([1, 2, 4, 8, -2, Fraction(1, 2)]) - sum(vals)
+            return {**K, "vals": qlist(vals)}
+
+        def twin(K):
+            vals = [Fraction(v) for v in K["vals"]]
+            nz = [i for i, v in enumerate(vals) if v != 0]
+            if normalize:
+                # the sum (a power of two) is preserved, so that the normalisation stays exact in doubles
+                if len(vals) < 2:
+                    return K
+                i, j = rng.sample(range(len(vals)), 2)
+                d = self.TWIN * rng.choice([1, -1, 2])
+                vals[i] += d
+                vals[j] -= d
+            else:
+                vals, _f = self._perturbed(rng, vals, rng.choice(["all", "some"]))
+            return {**K, "vals": qlist(vals)}
+        W = {"m": [list(r) for r in m], "K": kernel(), "A": self._values(rng, h * w, rng.choice(["int", "pos", "sparse"]))}
+        W0 = dict(W)
+        fixed = {"normalize_psf": normalize, "exposure": q(rng.choice([1, 1, 2, 4, Fraction(1, 2)])),
+                 "subtract_background": rng.random() < 0.85, "image_form": "float",
+                 "kernel_form": rng.choice(KERNEL_FORMS)}
+
+        def sub(Wd):
+            return {"kind": "simulate", "mask": mask_json(Wd["m"]), "kernel": Wd["K"], "image": qlist(Wd["A"]), **fixed}
+        steps = [{"case": sub(W), "move": "base"}]
+        moves = ["twin_psf", "twin_psf", "new_psf_same_shape", "edit_mask", "new_mask_same_shape",
+                 "new_image", "edit_image", "again", "back"]
+        for _ in range(rng.randint(1, 2)):
+            mv = rng.choice(moves)
+            if mv.startswith("twin"):
+                moves = [x for x in moves if not x.startswith("twin")]
+            W = dict(W)
+            st = {"move": mv}
+            if mv == "twin_psf":
+                W["K"] = twin(W["K"])
+                st["new"] = ["kernel"]
+            elif mv == "new_psf_same_shape":
+                W["K"] = kernel()
+                st["new"] = ["kernel"]
+            elif mv == "edit_mask":
+                mm = [list(r) for r in W["m"]]
+                y, x = rng.randrange(my, h - my), rng.randrange(mx, w - mx)
+                mm[y][x] = not mm[y][x]
+                W["m"] = mm
+            elif mv == "new_mask_same_shape":
+                m2, _mk = self._mask_with_margins(rng, h, w, my, mx)
+                W["m"] = [list(r) for r in m2]
+                st["new"] = ["mask"]
+            elif mv == "new_image":
+                W["A"] = self._values(rng, h * w, rng.choice(["int", "pos"]))
+                st["new"] = ["simimage"]
+            elif mv == "edit_image":
+                vals = list(W["A"])
+                vals[rng.randrange(h * w)] = Fraction(rng.randint(0, 20))
+                W["A"] = vals
+            elif mv == "back":
+                W = dict(W0)
+            if rng.random() < 0.3:
+                st["decoy"] = True
+            st["case"] = sub(W)
+            steps.append(st)
+        # one sky level for the whole history, so that the simulator object can be shared between the steps
+        bg = max(self._background(st["case"]) for st in steps)
+        for st in steps:
+            st["case"]["background"] = str(bg)
+        return {"tag": "history_sim_" + steps[1]["move"], "kind": "history",
+                "family": "simulate", "steps": steps}
+
+    def _histories(self, rng, n, hi):
+        for k in range(n):
+            r = k % 10
+            if r < 6:
+                yield self._hist_cv(rng, hi)
+            elif r < 8:
+                yield self._hist_same(rng, hi)
+            else:
+                yield self._hist_sim(rng, hi)
+
+    # ------------------------------------------------------------------ large cases (round 4, constant-directed)
+    # A large case is a small RECIPE (frame, mask recipe, kernel recipe, seed); the arrays are rebuilt from it by
+    # `_large_world`, so evidence / replays stay small.  No model request is made: the vectorised oracle states the
+    # property on the implementation's output, exactly (integers + multiples of 2^-30: every double operation exact).
+    LARGE_TOTAL_S = 40.0      # estimated pure-Python cost of everything `generate_large` yields
+    LARGE_CASE_S = 16.0
+
+    @staticmethod
+    def _large_mask(rec):
+        h, w = rec["h"], rec["w"]
+        m = np.ones((h, w), dtype=bool)
+        t = rec["type"]
+        if t == "fill":      # the first n non-hole cells, row-major, of the inner rectangle at (top, left), width iw
+            top, left, iw, n, holes = rec["top"], rec["left"], rec["iw"], rec["n"], rec.get("holes", 0)
+            rows = h - top - rec["bottom"]
+            p = np.arange(rows * iw)
+            ok = (p % holes != holes // 2) if holes else np.ones(len(p), dtype=bool)
+            p = p[ok][:n]
+            m[top + p // iw, left + p % iw] = False
+        elif t == "cells":   # isolated unmasked pixels "M U M" (2 blurring pixels each for a 1x3 kernel) + "M U M U M"
+            top, left, per_row, k, odd = rec["top"], rec["left"], rec["per_row"], rec["k"], rec["odd"]
+            c = np.arange(k)
+            m[top + c // per_row, left + 3 * (c % per_row) + 1] = False
+            if odd:
+                y = top + (k + per_row - 1) // per_row
+                m[y, left + 1] = False
+                m[y, left + 3] = False
+        elif t == "boxes":
+            for y0, x0, y1, x1 in rec["boxes"]:
+                m[y0:y1, x0:x1] = False
+        if rec.get("transpose"):
+            m = np.ascontiguousarray(m.T)
+        return m
+
+    @staticmethod
+    def _large_kernel(rec):
+        kh, kw = rec["h"], rec["w"]
+        i, j = np.meshgrid(np.arange(kh), np.arange(kw), indexing="ij")
+        K = ((3 * i + 5 * j + i * j + rec.get("seed", 0)) % 13 - 6).astype(float)   # signed, asymmetric
+        if rec.get("pow2"):      # entries >= 0 summing to a power of two: PSF normalisation exact
+            K = np.abs(K)
+            tot = int(K.sum())
+            K[kh // 2, kw // 2] += (1 << max(tot, 1).bit_length()) - tot
+        elif K[kh // 2, kw // 2] == 0:
+            K[kh // 2, kw // 2] = 4.0
+        if rec.get("transpose"):
+            K = np.ascontiguousarray(K.T)
+        return K
+
+    @classmethod
+    def _large_world(cls, case):
+        m = cls._large_mask(case["mask_recipe"]) if "mask_recipe" in case else None
+        K = cls._large_kernel(case["kernel_recipe"])
+        h, w = (m.shape if m is not None else (case["h"], case["w"]))
+        rs = np.random.RandomState(case["seed"] % (2 ** 31))
+        fine = 2.0 ** -30 if case.get("fine") else 0.0
+        lo = 0 if case.get("nonneg") else -9
+        A = rs.randint(lo, 10, (h, w)).astype(float) + fine * rs.randint(-8, 9, (h, w))
+        B = rs.randint(lo, 10, (h, w)).astype(float) + fine * rs.randint(-8, 9, (h, w))
+        return m, K, A, B
+
+    @staticmethod
+    def _large_matrix(case, n_un, A_slim):
+        nc = case.get("ncols", 2)
+        M = np.zeros((n_un, nc))
+        if n_un == 0:
+            return M
+        if nc <= 4:
+            M[:, 0] = A_slim
+            if nc > 1:
+                M[-min(50, n_un):, 1] = -1.5
+                M[0, 1] = 2.25
+            for c in range(2, nc):
+                M[c::7, c] = 1 + c
+        else:                    # many columns, sparse: ~2 signed entries per column
+            c = np.arange(nc)
+            M[(c * 7) % n_un, c] = (c % 5) - 2.5
+            M[(c * 3 + 1) % n_un, c] += (c % 3) + 0.25
+        return M
+
+    @staticmethod
+    def _ref_conv(native, K):
+        """true 2-D convolution (zero outside the frame) of an array (h, w[, …]): out[p] = Σ a[p+half-(i,j)]·K[i,j]"""
+        kh, kw = K.shape
+        hy, hx = kh // 2, kw // 2
+        h, w = native.shape[:2]
+        pad = np.zeros((h + 2 * hy, w + 2 * hx) + native.shape[2:])
+        pad[hy:hy + h, hx:hx + w] = native
+        out = np.zeros(native.shape)
+        for i in range(kh):
+            for j in range(kw):
+                if K[i, j] != 0:
+                    out += K[i, j] * pad[2 * hy - i:2 * hy - i + h, 2 * hx - j:2 * hx - j + w]
+        return out
+
+    @staticmethod
+    def _ref_blurring(m, kh, kw):
+        """masked pixels inside the kernel window of an unmasked one"""
+        hy, hx = kh // 2, kw // 2
+        h, w = m.shape
+        un = np.zeros((h + 2 * hy, w + 2 * hx), dtype=bool)
+        un[hy:hy + h, hx:hx + w] = ~m
+        near = np.zeros((h, w), dtype=bool)
+        for i in range(kh):
+            for j in range(kw):
+                near |= un[i:i + h, j:j + w]
+        return near & m      # True = blurring PIXEL (the library's blurring mask is its negation)
+
+    def _large_case(self, dim, n, hint, rng):
+        """one recipe whose size in dimension `dim` is exactly n (frame: as close as a non-square frame allows),
+        with a cost estimate in seconds of pure-Python work"""
+        if n < 1:
+            return None
+        seed = rng.randrange(2 ** 30)
+        base = {"tag": f"large_{dim}", "kind": "large", "dim": dim, "hint": hint, "n": n, "seed": seed,
+                "fine": rng.random() < 0.7, "store_native": rng.random() < 0.5}
+        if dim == "unmasked":
+            kh, kw = rng.choice([(3, 3), (1, 3), (3, 1), (3, 5), (5, 3)]) if n < 20000 else rng.choice([(3, 3), (1, 3), (3, 1)])
+            hy, hx = kh // 2, kw // 2
+            iw = max(1, int((n * rng.choice([0.35, 0.6, 1.7, 2.6])) ** 0.5))      # never square
+            holes = rng.choice([0, 0, 37, 11])
+            top, left = hy + rng.randint(0, 2), hx + rng.randint(0, 3)
+            need = n + (n // (holes - 1) + 2 if holes else 0)
+            rows = -(-need // iw) + 1
+            rec = {"type": "fill", "h": top + rows + hy, "w": left + iw + hx + rng.randint(0, 2), "top": top,
+                   "left": left, "iw": iw, "n": n, "holes": holes, "bottom": hy}
+            cost = (1.5e-4 if kh * kw >= 9 else 1.1e-4) * n * 1.1 + 4e-6 * rec["h"] * rec["w"]
+            return {**base, "sub": "convolver", "mask_recipe": rec, "kernel_recipe": {"h": kh, "w": kw, "seed": seed % 13},
+                    "ncols": 2, "_cost": cost}
+        if dim == "blurring":
+            if n < 2:
+                return None
+            odd = n % 2
+            k = (n - 3 * odd) // 2
+            if k < 1:
+                return None
+            per_row = max(1, int((k * rng.choice([0.3, 1.0, 2.5])) ** 0.5))
+            rows = -(-k // per_row) + (1 if odd else 0)
+            top, left = rng.randint(0, 2), rng.randint(0, 2)
+            rec = {"type": "cells", "h": top + rows + rng.randint(0, 1), "w": left + max(3 * per_row, 5) + rng.randint(0, 2),
+                   "top": top, "left": left, "per_row": per_row, "k": k, "odd": odd, "transpose": rng.random() < 0.5}
+            cost = 1.1e-4 * (n + k + 2) + 4e-6 * rec["h"] * rec["w"]
+            return {**base, "sub": "convolver", "mask_recipe": rec,
+                    "kernel_recipe": {"h": 1, "w": 3, "seed": seed % 13, "transpose": rec["transpose"]},
+                    "ncols": 2, "_cost": cost}
+        if dim in ("frame", "frame_same", "frame_sim"):
+            # h·w = n exactly when n has a divisor pair that is not square and not too thin, else the nearest frame
+            divs = [d for d in range(3, int(n ** 0.5) + 1) if n % d == 0 and d * d != n]
+            if divs and rng.random() < 0.8:
+                hh = rng.choice(divs[-3:])
+                ww = n // hh
+            else:
+                hh = max(3, int((n * rng.choice([0.4, 0.7])) ** 0.5))
+                ww = -(-n // hh)
+            if hh == ww:
+                ww += 1
+            if rng.random() < 0.5:
+                hh, ww = ww, hh
+            fits = [(a, b) for a, b in [(3, 3), (1, 3), (3, 1), (3, 5), (5, 3)] if hh >= a + 2 and ww >= b + 2]
+            if not fits:
+                return None
+            kh, kw = rng.choice(fits)
+            hy, hx = kh // 2, kw // 2
+            if dim == "frame_same":
+                return {**base, "sub": "same", "h": hh, "w": ww, "kernel_recipe": {"h": kh, "w": kw, "seed": seed % 13},
+                        "_cost": 1e-5 * hh * ww + 0.05}
+            # unmasked clusters hugging the first and the LAST admissible rows / columns (largest native indexes)
+            bh, bw = min(3, hh - 2 * hy), min(4, ww - 2 * hx)
+            boxes = [[hy, hx, hy + bh, hx + bw], [hh - hy - bh, ww - hx - bw, hh - hy, ww - hx],
+                     [hh - hy - 1, hx, hh - hy, hx + bw], [hy, ww - hx - 1, hy + bh, ww - hx]]
+            rec = {"type": "boxes", "h": hh, "w": ww, "boxes": boxes}
+            # (Convolver.__init__ reads `mask[x][y]`, which copies the whole mask per pixel: quadratic in H·W)
+            cost = 8e-6 * hh * ww + 1.5e-10 * (hh * ww) ** 2 + 0.05
+            if dim == "frame_sim":
+                return {**base, "sub": "simulate", "mask_recipe": rec, "fine": False, "nonneg": False,
+                        "kernel_recipe": {"h": kh, "w": kw, "seed": seed % 13, "pow2": True},
+                        "normalize_psf": rng.random() < 0.5, "subtract_background": rng.random() < 0.8,
+                        "_cost": cost + 2e-5 * hh * ww}
+            return {**base, "sub": "convolver", "mask_recipe": rec, "kernel_recipe": {"h": kh, "w": kw, "seed": seed % 13},
+                    "ncols": 3, "_cost": cost}
+        if dim in ("kernel", "kernel_dense"):
+            # odd kh x kw with kh·kw as close to n as an odd product allows (n itself when it is odd and composite)
+            if n > 1500:
+                return None
+            # on the same side of the constant as n; among the products within a small window the most balanced shape
+            win = max(4, n // 20)
+            best = None
+            for a in range(3, 80, 2):
+                for bb in range(3, 400, 2):
+                    prod = a * bb
+                    if (n > hint and not (n <= prod <= n + win)) or (n < hint and not (n - win <= prod <= n)) \
+                            or (n == hint and abs(prod - n) > win):
+                        continue
+                    cand = (abs(prod - n) if n == hint else 0, abs(a - bb), abs(prod - n), a, bb)
+                    if best is None or cand < best:
+                        best = cand
+            if best is None:
+                return None
+            kh, kw = best[3], best[4]
+            if rng.random() < 0.5:
+                kh, kw = kw, kh
+            hy, hx = kh // 2, kw // 2
+            if dim == "kernel_dense":
+                # an unmasked block larger than the kernel: the frames of its inner pixels have all kh·kw entries
+                if kh * kw > 800:
+                    return None
+                bh, bw = kh + rng.randint(1, 2), kw + rng.randint(1, 3)
+                top, left = hy + rng.randint(0, 1), hx + rng.randint(0, 1)
+                rec = {"type": "boxes", "h": top + bh + hy, "w": left + bw + hx + rng.randint(0, 1),
+                       "boxes": [[top, left, top + bh, left + bw]]}
+                cost = 1.2e-6 * kh * kw * (bh + 2 * hy) * (bw + 2 * hx) + 0.05
+                return {**base, "tag": "large_kernel_dense", "sub": "convolver", "n": kh * kw, "mask_recipe": rec,
+                        "kernel_recipe": {"h": kh, "w": kw, "seed": seed % 13}, "ncols": 2, "_cost": cost}
+            bh, bw = rng.randint(2, 3), rng.randint(2, 4)
+            top, left = hy + rng.randint(0, 1), hx + rng.randint(0, 2)
+            rec = {"type": "boxes", "h": top + bh + 1 + hy, "w": left + bw + 2 + hx,
+                   "boxes": [[top, left, top + bh, left + bw], [top + bh, left + bw + 1, top + bh + 1, left + bw + 2]]}
+            npx = bh * bw + 1
+            cost = 2e-6 * kh * kw * (npx + (bh + 2 * hy) * (bw + 2 * hx)) * 3 + 4e-6 * rec["h"] * rec["w"] + 0.02
+            return {**base, "tag": "large_kernel", "sub": "convolver", "n": kh * kw, "mask_recipe": rec,
+                    "kernel_recipe": {"h": kh, "w": kw, "seed": seed % 13}, "ncols": 2, "_cost": cost}
+        if dim == "columns":
+            kh, kw = rng.choice([(3, 3), (1, 3), (3, 1)])
+            hy, hx = kh // 2, kw // 2
+            bh, bw = rng.randint(2, 3), rng.randint(3, 5)
+            rec = {"type": "boxes", "h": 2 * hy + bh + 1, "w": 2 * hx + bw + 2,
+                   "boxes": [[hy + 1, hx, hy + 1 + bh, hx + bw], [hy, hx + bw + 1, hy + 1, hx + bw + 2]]}
+            cost = 2.2e-6 * n * (bh * bw + 1) + 0.02
+            return {**base, "sub": "convolver", "mask_recipe": rec, "kernel_recipe": {"h": kh, "w": kw, "seed": seed % 13},
+                    "ncols": n, "_cost": cost}
+        return None
+
+    LARGE_DIMS = ("unmasked", "blurring", "frame", "frame_same", "frame_sim", "kernel", "kernel_dense", "columns")
+
+    def generate_large(self, hints, rng):
+        """for every new integer constant c of the anchored source: cases whose size — unmasked pixels, blurring
+        pixels, frame pixels H·W (masked convolution, whole-frame convolution, simulator pipeline), kernel pixels,
+        mapping-matrix columns — is c + c//3 + 1 (a non-multiple above), 2c + 1, c + 1, c, c − 1; the sizes above c
+        first, cheap before expensive, within an estimated budget of pure-Python time"""
+        plans = []
+        for c in sorted(set(int(x) for x in hints)):
+            for pr, n in ((0, c + c // 3 + 1), (1, 2 * c + 1), (2, c + 1), (3, c), (3, c - 1)):
+                for dim in self.LARGE_DIMS:
+                    case = self._large_case(dim, n, c, rng)
+                    if case is not None and case["_cost"] <= self.LARGE_CASE_S:
+                        plans.append((pr, case["_cost"], len(plans), case))
+        plans.sort(key=lambda t: t[:3])
+        total = 0.0
+        for pr, cost, _k, case in plans:
+            if total + cost > self.LARGE_TOTAL_S:
+                continue
+            total += cost
+            case = {k: v for k, v in case.items() if k != "_cost"}
+            yield case
+
+    def _run_large(self, aa, case):
+        m, K, A, B = self._large_world(case)
+        kernel = aa.Kernel2D.no_mask(values=K, pixel_scales=1.0)
+        sub = case["sub"]
+        if sub == "same":
+            arr = aa.Array2D.no_mask(values=A, pixel_scales=1.0)
+            out = kernel.convolved_array_from(array=arr)
+            h, w = A.shape
+            yy, xx = np.meshgrid(np.arange(h), np.arange(w), indexing="ij")
+            mask2 = aa.Mask2D(mask=((yy * 3 + xx) % 4 == 1), pixel_scales=1.0)
+            out2 = kernel.convolved_array_with_mask_from(array=arr.native, mask=mask2)
+            return {"same": np.array(np.asarray(out.native.array)), "same_masked": np.array(np.asarray(out2.slim.array))}
+        mask = aa.Mask2D(mask=m.copy(), pixel_scales=1.0)
+        if sub == "simulate":
+            Ke = K / K.sum() if case.get("normalize_psf", True) else K
+            bg = float(int(np.abs(A).max() * np.abs(Ke).sum()) + 1)
+            img = aa.Array2D.no_mask(values=A, pixel_scales=1.0)
+            sim = aa.SimulatorImaging(exposure_time=1.0, background_sky_level=bg, psf=kernel,
+                                      subtract_background_sky=bool(case.get("subtract_background", True)),
+                                      normalize_psf=bool(case.get("normalize_psf", True)),
+                                      add_poisson_noise_to_data=False, include_poisson_noise_in_noise_map=False,
+                                      noise_seed=1)
+            ds = sim.via_image_from(image=img)
+            masked = ds.apply_mask(mask=mask)
+            if tuple(masked.data.shape_native) != tuple(m.shape):
+                return {"err": "padded", "shape": list(masked.data.shape_native)}
+            bm2 = masked.mask.derive_mask.blurring_from(kernel_shape_native=kernel.shape_native)
+            model = masked.convolver.convolve_image(image=aa.Array2D(values=A, mask=masked.mask),
+                                                    blurring_image=aa.Array2D(values=A, mask=bm2))
+            return {"simulated": np.array(np.asarray(ds.data.native.array)),
+                    "data": np.array(np.asarray(masked.data.slim.array)),
+                    "psf": np.array(np.asarray(masked.psf.native.array)),
+                    "model": np.array(np.asarray(model.slim.array)), "sky": bg}
         from autoarray import exc
-
-        m = mask_from_json(case["mask"])
-        mask = aa.Mask2D(mask=m, pixel_scales=1.0)
-        kernel = self._kernel_obj(aa, case)
         try:
             cv = aa.Convolver(mask=mask, kernel=kernel)
+        except exc.MaskException as e:
+            return {"err": "footprint_outside" if "extends beyond" in str(e) else "MaskException"}
+        bm = mask.derive_mask.blurring_from(kernel_shape_native=kernel.shape_native)
+        sn = bool(case.get("store_native"))
+        img = aa.Array2D(values=A, mask=mask, store_native=sn)
+        blur = aa.Array2D(values=B, mask=bm, store_native=sn)
+        out = cv.convolve_image(image=img, blurring_image=blur)
+        nb = cv.convolve_image_no_blurring(image=img)
+        M = self._large_matrix(case, int((~m).sum()), A[~m])
+        bmm = cv.convolve_mapping_matrix(mapping_matrix=M)
+        return {"n_unmasked": int(cv.pixels_in_mask), "n_blurring": int(cv.pixels_in_blurring_mask),
+                "blurred": np.array(np.asarray(out.slim.array)), "no_blurring": np.array(np.asarray(nb.slim.array)),
+                "matrix": np.array(np.asarray(bmm)), "blurring_mask": np.array(np.asarray(cv.blurring_mask, dtype=bool)),
+                "derived_blurring_mask": np.array(np.asarray(bm, dtype=bool))}
+
+    @staticmethod
+    def _first_diff(got, exp):
+        got, exp = np.asarray(got), np.asarray(exp)
+        if got.shape != exp.shape:
+            return f"shape {got.shape} vs {exp.shape}"
+        bad = np.argwhere(got != exp)
+        k = tuple(int(v) for v in bad[0])
+        return f"{len(bad)} of {got.size} entries differ, first at {k}: {float(got[k])!r} vs {float(exp[k])!r}"
+
+    def _oracle_large(self, case, obs):
+        m, K, A, B = self._large_world(case)
+        kh, kw = K.shape
+        what = f"[{case['dim']} = {case['n']} for the new constant {case['hint']}] "
+        if "err" in obs:
+            return False, what + f"valid input raised {str(obs)[:200]}"
+        if case["sub"] == "same":
+            exp = self._ref_conv(A, K)
+            if not np.array_equal(obs["same"], exp):
+                return False, what + ("whole-frame convolution differs from the true convolution: "
+                                      + self._first_diff(obs["same"], exp))
+            h, w = A.shape
+            yy, xx = np.meshgrid(np.arange(h), np.arange(w), indexing="ij")
+            mm = (yy * 3 + xx) % 4 == 1
+            if not np.array_equal(obs["same_masked"], exp[~mm]):
+                return False, what + ("convolved_array_with_mask_from is not the whole-frame convolution gathered at "
+                                      "the mask: " + self._first_diff(obs["same_masked"], exp[~mm]))
+            return True, ""
+        un = ~m
+        hy, hx = kh // 2, kw // 2
+        ys, xs = np.nonzero(un)
+        if len(ys) and not (ys.min() >= hy and ys.max() + hy < m.shape[0] and xs.min() >= hx and xs.max() + hx < m.shape[1]):
+            return (obs.get("err") == "footprint_outside"), what + "footprint leaves the frame"
+        if case["sub"] == "simulate":
+            Ke = K / K.sum() if case.get("normalize_psf", True) else K
+            sky = 0.0 if case.get("subtract_background", True) else obs["sky"]
+            exp = self._ref_conv(A, Ke) + sky
+            if not np.array_equal(obs["simulated"], exp):
+                return False, what + ("noise-free simulated data is not the true whole-frame convolution with the "
+                                      "simulator's PSF: " + self._first_diff(obs["simulated"], exp))
+            if not np.array_equal(obs["psf"], Ke):
+                return False, what + "the masked dataset's PSF is not the kernel the data were simulated with"
+            if not np.array_equal(obs["data"], exp[un]):
+                return False, what + "masked data are not the simulated data gathered at the mask: " + \
+                    self._first_diff(obs["data"], exp[un])
+            resid = np.asarray(obs["data"]) - np.asarray(obs["model"])
+            if resid.shape != exp[un].shape or np.any(resid != sky):
+                return False, what + ("noise-free simulated image is not fitted with zero residual: "
+                                      + self._first_diff(resid, np.full(exp[un].shape, sky)))
+            return True, ""
+        blurpix = self._ref_blurring(m, kh, kw)
+        if obs["n_unmasked"] != int(un.sum()) or obs["n_blurring"] != int(blurpix.sum()):
+            return False, what + (f"pixel counts {obs['n_unmasked']}/{obs['n_blurring']} differ from "
+                                  f"{int(un.sum())}/{int(blurpix.sum())}")
+        for key in ("blurring_mask", "derived_blurring_mask"):
+            if not np.array_equal(obs[key], ~blurpix):
+                return False, what + f"{key} is not the union of the kernel footprints minus the mask"
+        full = np.where(un, A, np.where(blurpix, B, 0.0))
+        exp = self._ref_conv(full, K)[un]
+        if not np.array_equal(obs["blurred"], exp):
+            return False, what + ("convolve_image differs from the true convolution of the combined native image "
+                                  "(slim index): " + self._first_diff(obs["blurred"], exp))
+        exp_nb = self._ref_conv(np.where(un, A, 0.0), K)[un]
+        if not np.array_equal(obs["no_blurring"], exp_nb):
+            return False, what + ("convolve_image_no_blurring differs from the true convolution of the masked image "
+                                  "(slim index): " + self._first_diff(obs["no_blurring"], exp_nb))
+        M = self._large_matrix(case, int(un.sum()), A[un])
+        nat = np.zeros(m.shape + (M.shape[1],))
+        nat[un] = M
+        exp_m = self._ref_conv(nat, K)[un]
+        if not np.array_equal(obs["matrix"], exp_m):
+            return False, what + ("the blurred mapping matrix is not the blurring operator applied to each column "
+                                  "(row, column): " + self._first_diff(obs["matrix"], exp_m))
+        return True, ""
+
+    _large_shrinks = 0
+    LARGE_SHRINKS_MAX = 6
+
+    def _shrink_large(self, case):
+        """few and cheap: the smallest size above the constant, then integer-only values"""
+        import random as _random
+        if self._large_shrinks >= self.LARGE_SHRINKS_MAX:
+            return
+        dim, c = case["dim"], case["hint"]
+        if not dim.startswith("kernel") and case["n"] > c + 1:
+            self._large_shrinks += 1
+            c2 = self._large_case(dim, c + 1, c, _random.Random(case["seed"]))
+            if c2 is not None:
+                c2.pop("_cost", None)
+                yield c2
+        if case.get("fine") and self._large_shrinks < self.LARGE_SHRINKS_MAX:
+            self._large_shrinks += 1
+            yield {**case, "fine": False}
+
+    # ------------------------------------------------------------------ implementation
+    def _convolver(self, aa, case, env=None):
+        from autoarray import exc
+
+        env = env or _Env(aa)
+        m = mask_from_json(case["mask"])
+        mask = env.mask(m)
+        kernel = env.kernel(case)
+        try:
+            cv = env.convolver(mask, kernel, case)
         except exc.KernelException:
             return mask, kernel, None, {"err": "even_kernel"}
         except exc.MaskException as e:
@@ -358,25 +1416,55 @@ class C03(PropertyCheck):
 
     def run_impl(self, case):
         aa = load_autoarray()
+        if case["kind"] == "history":
+            return self._run_history(aa, case)
+        if case["kind"] == "large":
+            return self._run_large(aa, case)
+        return self._run_one(aa, case, _Env(aa))
+
+    def _run_history(self, aa, case):
+        """the steps of a history on REAL reused objects (see `_Env`); every step's observation is the ordinary
+        observation of that step's world, to be compared with the model / oracle value of a FRESH object"""
+        env = _Env(aa)
+        out = []
+        for st in case["steps"]:
+            env.begin(st)
+            try:
+                out.append(self._run_one(aa, st["case"], env))
+            except Exception as e:     # recorded per step so that the failing step is named
+                out.append({"err": type(e).__name__, "msg": str(e)[:300]})
+        return {"steps": out}
+
+    def _run_one(self, aa, case, env):
         from autoarray import exc
 
         kind = case["kind"]
         if kind == "same":
             h, w = case["h"], case["w"]
-            kernel = self._kernel_obj(aa, case)
-            arr = aa.Array2D.no_mask(values=_typed(case["image"], (h, w), case.get("image_form", "float")),
-                                     pixel_scales=1.0)
+            kernel = env.kernel(case)
+            arr = env.array_no_mask(case["image"], (h, w), case.get("image_form", "float"))
+            mm = np.array([[(y * 3 + x) % 4 == 1 for x in range(w)] for y in range(h)], dtype=bool)
+            env.before_observe(kernel=kernel, array=arr)
+
+            def whole():
+                return kernel.convolved_array_from(array=arr)
+
+            def masked():
+                # the masked twin on a checkerboard-ish mask: must be the same numbers gathered at the mask
+                mask2 = aa.Mask2D(mask=mm, pixel_scales=1.0)
+                return kernel.convolved_array_with_mask_from(array=arr.native, mask=mask2)
             try:
-                out = kernel.convolved_array_from(array=arr)
+                if env.swap():
+                    out2 = masked()
+                    out = whole()
+                else:
+                    out = whole()
+                    out2 = masked()
             except exc.KernelException:
                 return {"err": "even_kernel"}
-            # the masked twin on a checkerboard-ish mask: must be the same numbers gathered at the mask
-            mm = np.array([[(y * 3 + x) % 4 == 1 for x in range(w)] for y in range(h)], dtype=bool)
-            mask2 = aa.Mask2D(mask=mm, pixel_scales=1.0)
-            out2 = kernel.convolved_array_with_mask_from(array=arr.native, mask=mask2)
             return {"same": qlist(np.asarray(out.native.array).ravel()),
                     "same_masked": qlist(np.asarray(out2.slim.array).ravel())}
-        mask, kernel, cv, err = self._convolver(aa, case)
+        mask, kernel, cv, err = self._convolver(aa, case, env)
         if err:
             return err
         h, w = mask.shape_native
@@ -384,25 +1472,28 @@ class C03(PropertyCheck):
         if kind == "convolve":
             sn = bool(case.get("store_native"))
             iform = case.get("image_form", "native_float")
-            img = self._image_obj(aa, case["image"], (h, w), mask, iform, sn)
-            blur = self._image_obj(aa, case["blur"], (h, w), bm, iform, sn)
-            out = cv.convolve_image(image=img, blurring_image=blur)
-            if case.get("interpolation_wrapper"):   # thin wrapper of the same operator on a raw slim array
-                nb = cv.convolve_image_no_blurring_interpolation(image=np.array(img.slim.array))
+            img = env.image("image", case["image"], (h, w), mask, iform, sn)
+            blur = env.image("blur", case["blur"], (h, w), bm, iform, sn)
+            env.before_observe(mask=mask, kernel=kernel, cv=cv, image=img, blur=blur)
+
+            def both():
+                return cv.convolve_image(image=img, blurring_image=blur)
+
+            def no_blurring():
+                if case.get("interpolation_wrapper"):   # thin wrapper of the same operator on a raw slim array
+                    return cv.convolve_image_no_blurring_interpolation(image=np.array(img.slim.array))
+                return cv.convolve_image_no_blurring(image=img)
+            if env.swap():
+                nb = no_blurring()
+                out = both()
             else:
-                nb = cv.convolve_image_no_blurring(image=img)
+                out = both()
+                nb = no_blurring()
             return {"blurred": qlist(np.asarray(out.slim.array)), "no_blurring": qlist(np.asarray(nb.slim.array)),
                     "blurring_mask": _bits(cv.blurring_mask)}
         if kind == "matrix":
-            M = np.array([[float(Fraction(v)) for v in row] for row in case["matrix"]], dtype=float)
-            M = M.reshape(len(case["matrix"]), case["ncols"])
-            mform = case.get("matrix_form", "float")
-            if mform == "int64" and _integral([v for row in case["matrix"] for v in row]):
-                M = M.astype(np.int64)
-            elif mform == "float32":
-                M = M.astype(np.float32)
-            elif mform == "fortran":
-                M = np.asfortranarray(M)
+            M = env.matrix(case)
+            env.before_observe(mask=mask, kernel=kernel, cv=cv, matrix=M)
             out = cv.convolve_mapping_matrix(mapping_matrix=M)
             return {"matrix": qmat(np.asarray(out))}
         if kind == "operator":
@@ -418,20 +1509,15 @@ class C03(PropertyCheck):
                 cols.append(qlist(np.asarray(out.slim.array)))
             return {"support": [list(p) for p in support], "columns": cols}
         if kind == "simulate":
-            img = aa.Array2D.no_mask(values=_typed(case["image"], (h, w), case.get("image_form", "float")),
-                                     pixel_scales=1.0)
-            A = np.asarray(img.native.array)
+            img = env.array_no_mask(case["image"], (h, w), case.get("image_form", "float"), role="simimage")
+            A = np.array(np.asarray(img.native.array))
             bg = float(self._background(case))
-            sim = aa.SimulatorImaging(exposure_time=float(Fraction(case.get("exposure", "1"))),
-                                      background_sky_level=bg, psf=kernel,
-                                      subtract_background_sky=bool(case.get("subtract_background", True)),
-                                      normalize_psf=bool(case.get("normalize_psf", True)),
-                                      add_poisson_noise_to_data=False,
-                                      include_poisson_noise_in_noise_map=False, noise_seed=1)
-            ds = sim.via_image_from(image=img)
-            masked = ds.apply_mask(mask=mask)
+            sim = env.simulator(case, kernel, bg)
+            ds = env.dataset(sim, img)
+            masked = env.masked(ds, mask)
             if tuple(masked.data.shape_native) != (h, w):
                 return {"err": "padded", "shape": list(masked.data.shape_native)}
+            env.before_observe(mask=mask, kernel=kernel, dataset=ds, masked=masked)
             cv2 = masked.convolver
             bm2 = masked.mask.derive_mask.blurring_from(kernel_shape_native=kernel.shape_native)
             model = cv2.convolve_image(image=aa.Array2D(values=A, mask=masked.mask),
@@ -447,6 +1533,17 @@ class C03(PropertyCheck):
     # ------------------------------------------------------------------ model
     def model_requests(self, case, impl_obs):
         kind = case["kind"]
+        if kind == "large":
+            return []      # judged by the vectorised oracle alone (DESIGN §13)
+        if kind == "history":
+            # every step is compared with the model of a FRESH object in that step's state: one request per step
+            obs = impl_obs.get("steps") if isinstance(impl_obs, dict) else None
+            reqs = []
+            for i, st in enumerate(case["steps"]):
+                r = self.model_requests(st["case"], obs[i] if obs and i < len(obs) else {})
+                assert len(r) == 1
+                reqs += r
+            return reqs
         if kind == "same":
             h, w = case["h"], case["w"]
             mm = [[(y * 3 + x) % 4 == 1 for x in range(w)] for y in range(h)]
@@ -478,6 +1575,8 @@ class C03(PropertyCheck):
         raise ValueError(kind)
 
     def model_obs(self, case, responses):
+        if case["kind"] == "history":
+            return {"steps": [self.model_obs(st["case"], [r]) for st, r in zip(case["steps"], responses)]}
         for r in responses:
             if "err" in r:
                 return {"err": r["err"]}
@@ -507,6 +1606,14 @@ class C03(PropertyCheck):
         return d
 
     def _compare(self, case, impl_obs, model_obs, cmp):
+        if case["kind"] == "history":
+            if "steps" not in impl_obs or len(impl_obs["steps"]) != len(case["steps"]):
+                return f"history did not run: {str(impl_obs)[:200]}"
+            for i, st in enumerate(case["steps"]):
+                d = self._compare(st["case"], impl_obs["steps"][i], model_obs["steps"][i], cmp)
+                if d:
+                    return f"step {i} ({st.get('move')}): {d}"
+            return None
         if "err" in impl_obs or "err" in model_obs:
             a = {"err": impl_obs.get("err")} if "err" in impl_obs else impl_obs
             return cmp.diff(a, model_obs)
@@ -553,6 +1660,18 @@ class C03(PropertyCheck):
 
     def _oracle(self, case, obs):
         kind = case["kind"]
+        if kind == "large":
+            return self._oracle_large(case, obs)
+        if kind == "history":
+            if "steps" not in obs or len(obs["steps"]) != len(case["steps"]):
+                return False, f"history did not run: {str(obs)[:200]}"
+            for i, st in enumerate(case["steps"]):
+                ok, detail = self._oracle(st["case"], obs["steps"][i])
+                if not ok:
+                    flags = [k for k in ("decoy", "fault", "swap", "new", "derive") if st.get(k)]
+                    return False, (f"history step {i} (move {st.get('move')}, {flags}) on reused objects differs from "
+                                   f"a fresh computation: {detail}")
+            return True, ""
         kh, kw, K = self._kernel_of(case)
         if kind == "simulate":   # the one PSF of the whole pipeline
             Ke = [Fraction(v) for v in self._effective_kernel(case)["vals"]]
@@ -658,6 +1777,10 @@ class C03(PropertyCheck):
         return True, ""
 
     def nontrivial(self, case, obs):
+        if case["kind"] == "history":
+            return len(case["steps"]) > 1 and any(self.nontrivial(st["case"], None) for st in case["steps"])
+        if case["kind"] == "large":
+            return True
         vals = [Fraction(v) for v in case["kernel"]["vals"]]
         return sum(1 for v in vals if v != 0) > 1
 
@@ -678,6 +1801,21 @@ class C03(PropertyCheck):
 
     def _shrink(self, case):
         kind = case["kind"]
+        if kind == "large":
+            yield from self._shrink_large(case)
+            return
+        if kind == "history":
+            steps = case["steps"]
+            if len(steps) > 1:
+                yield {**case, "steps": steps[:-1]}
+                for i in range(len(steps) - 1):
+                    yield {**case, "steps": steps[:i] + steps[i + 1:]}
+            for i, st in enumerate(steps):
+                for flag in ("decoy", "fault", "swap", "derive"):
+                    if st.get(flag):
+                        st2 = {k: v for k, v in st.items() if k not in (flag, "scale" if flag == "derive" else flag)}
+                        yield {**case, "steps": steps[:i] + [st2] + steps[i + 1:]}
+            return
         # simplify values toward 0 / 1
         if kind in ("convolve", "simulate", "same"):
             for key in ("image", "blur"):
@@ -708,6 +1846,11 @@ class C03(PropertyCheck):
                 yield {**case, "kernel": {**K, "vals": ["0" if k == i else v for k, v in enumerate(K["vals"])]}}
 
     def theorems_for(self, case):
+        if case["kind"] == "history":
+            return sorted({t for st in case["steps"] for t in self.theorems_for(st["case"])})
+        if case["kind"] == "large":
+            return ["C03.convolve_eq_true_convolution", "C03.convolve_matrix_columnwise", "C03.whole_frame_agrees",
+                    "C03.pipeline_zero_residual"]
         return {
             "convolve": ["C03.convolve_eq_true_convolution", "C03.convolve_no_blurring_eq_true_convolution",
                          "C03.non_interference", "C03.convolver_defined_iff", "C03.even_kernel_rejected"],
